@@ -55,6 +55,7 @@ type Contract struct {
 	GhostSets  []GhostSet
 	DynCall    *Contract // frame assumed for dynamic calls
 	Unreachable []string // names of return covers that are legitimately dead, e.g. return@1
+	Opaque      []string // callees (by short name) treated as unknown calls inside this function: full havoc, no use of their contract
 }
 
 type SpecFn struct {
@@ -136,7 +137,7 @@ func newContractSet() *ContractSet {
 }
 
 var clauseKw = map[string]bool{"props": true, "tier": true, "requires": true, "ensures": true, "modifies": true, "loop": true,
-	"panics": true, "inline": true, "pure": true, "assumes": true, "universe": true, "fresh": true, "params": true, "note": true, "funcparam": true, "ghostset": true, "rangeloop": true, "unreachable": true, "dyncall": true}
+	"panics": true, "inline": true, "pure": true, "assumes": true, "universe": true, "fresh": true, "params": true, "note": true, "funcparam": true, "ghostset": true, "rangeloop": true, "unreachable": true, "dyncall": true, "opaque": true}
 
 var topKw = map[string]bool{"chancount": true, "changhost": true, "lockonly": true, "lockinv": true, "lockguar": true, "ufunc": true, "smtaxiom": true, "func": true, "trusted": true, "spec": true, "ghost": true, "lemma": true, "axiom": true, "purepkg": true}
 
@@ -435,6 +436,29 @@ func (cs *ContractSet) parseFile(fset *token.FileSet, f *ast.File, pkgPath strin
 				cur.Notes = append(cur.Notes, it.rest)
 			case "dyncall":
 				// dyncall modifies ... : frame assumed for calls through unknown function values in this function
+				if strings.HasPrefix(strings.TrimSpace(it.rest), "results ") {
+					// dyncall results N ensures <expr>: assumed for dynamic calls with N results
+					fs := strings.Fields(it.rest)
+					n, _ := strconv.Atoi(fs[1])
+					i := strings.Index(it.rest, "ensures")
+					if i < 0 || cur.DynCall == nil {
+						errf(it, "bad dyncall results clause (needs a preceding dyncall modifies)")
+						continue
+					}
+					it2 := it
+					it2.rest = strings.TrimSpace(it.rest[i+7:])
+					if cur.DynCall.FuncParams == nil {
+						cur.DynCall.FuncParams = map[string]*Contract{}
+					}
+					key := fmt.Sprintf("results%d", n)
+					sub := cur.DynCall.FuncParams[key]
+					if sub == nil {
+						sub = &Contract{Key: cur.DynCall.Key, Pkg: cur.Pkg, Trusted: true, ModSet: true, Modifies: cur.DynCall.Modifies, Loops: map[int]*LoopSpec{}, Universe: map[string][]string{}}
+						cur.DynCall.FuncParams[key] = sub
+					}
+					sub.Ensures = append(sub.Ensures, mkClause(it2, "ensures"))
+					continue
+				}
 				rest := strings.TrimSpace(strings.TrimPrefix(strings.TrimSpace(it.rest), "modifies"))
 				cur.DynCall = &Contract{Key: cur.Key + ".dyncall", Pkg: cur.Pkg, Trusted: true, Loops: map[int]*LoopSpec{}, Universe: map[string][]string{}, ModSet: true}
 				if strings.HasPrefix(rest, "* except") {
@@ -448,6 +472,8 @@ func (cs *ContractSet) parseFile(fset *token.FileSet, f *ast.File, pkgPath strin
 				}
 			case "unreachable":
 				cur.Unreachable = append(cur.Unreachable, strings.Fields(it.rest)...)
+			case "opaque":
+				cur.Opaque = append(cur.Opaque, strings.Fields(strings.ReplaceAll(it.rest, ",", " "))...)
 			case "ghostset":
 				// ghostset unlock|return VAR := expr
 				fs := strings.Fields(it.rest)
